@@ -26,8 +26,8 @@ ASSUMPTIONS = [
     'lines that cross a column side at an angle whose sine is below 1e-3, or lie on a side, are outside the quantifier (counted)',
     'a clipped length within [0.5, 2] x (1e-3 x longest side) may or may not be listed; so may a shorter piece at an end of the '
     'line (a line wholly inside one column is listed whatever its length); line end points within the point tolerance of a side are excluded',
-    'entry/exit tolerance 1e-11 x (|coordinate| + line length) / sine of the flattest crossing angle: 4.5e4 rounding units; 
-    'the unchanged tree the largest deviation was below 2 % of it',
+    'entry/exit tolerance 1e-11 x (|coordinate| + line length) / sine of the flattest crossing angle (4.5e4 rounding units); measured: '
+    'every one of 35 781 tracks of a thorough run deviated by less than 0.1 % of it (label track:deviation/tolerance)',
     'non-convex columns (a line may enter twice) are counted as excluded for line tracks',
 ]
 
@@ -133,8 +133,8 @@ def shipped_cases(tier):
 def searches(tier):
     q = tier == 'quick'
     return [Search('shipped', 'enum', lambda: shipped_cases(tier), shards=16),
-            Search('generated', 'hyp', lambda: case_strategy(q), n=1600 if q else 40000, shards=16),
-            Search('small-column', 'hyp', small_column_case, n=480 if q else 12000, shards=16)]
+            Search('generated', 'hyp', lambda: case_strategy(q), n=3200 if q else 40000, shards=16),
+            Search('small-column', 'hyp', small_column_case, n=960 if q else 12000, shards=16)]
 
 
 # ---------------------------------------------------------------------- oracle
